@@ -1,5 +1,6 @@
 """History generators for the protocol checks (DESIGN.md 3.3 'Event vocabulary and generator restrictions')."""
 import random
+import zlib
 import re
 
 import proto
@@ -324,6 +325,9 @@ class RandomHistory(object):
                 return None
             c, sv = r.choice(cands)
             tag = s.open[c]["tag"]
+            if tag != tag.upper() and zlib.crc32(("%s/%s" % (tag, sv)).encode()) % 16 == 0:
+                # a hexadecimal number is the same number in capitals: now and then the tag comes back as `1A_2F`
+                tag = tag.upper()
             if cat == "unlinked":
                 self.answered.append((sv, tag))
                 return {"t": "unlinked", "svc": sv, "tag": tag, "text": "Server not online"}
